@@ -256,7 +256,10 @@ func (c *FnCtx) checkFull(kind, desc, guard, cond, assumeAfter string, pre []str
 	cond, assumeAfter = fold(cond), fold(assumeAfter)
 	c.items = append(c.items, item{kind: "check", text: and(guard, not(cond)), ob: ob, pre: pre})
 	c.obs = append(c.obs, ob)
-	// after checking, later code may rely on it
+	// after checking, later code may rely on it - unless the obligation is a recorded known finding
+	if c.g != nil && c.g.noAssume[ob.Name] {
+		return
+	}
 	c.items = append(c.items, item{kind: "assert", text: implies(guard, assumeAfter)})
 }
 
